@@ -279,6 +279,9 @@ pub fn run_c05(p: &Params) -> Outcome {
     // large vectors (imbl chunks hold 64 elements)
     let big = GenCfg { maxlen: 160, init_max: 130, vmax: 500, max_ops: 60, max_subs: 10, ..g };
     out.merge(random("C05", p, p.n(4_000, 60_000), &big, &nt, "c05-rand-large"));
+    // long backlogs below the capacity: one batched poll collects dozens of messages
+    let backlog = GenCfg { caps: &[64, 128, 256, 1024], min_ops: 60, max_ops: 400, poll_pct: 3, max_subs: 3, ..g };
+    out.merge(random("C05", p, p.n(2_000, 40_000), &backlog, &nt, "c05-rand-backlog"));
     out
 }
 
@@ -348,6 +351,9 @@ pub fn run_c06(p: &Params) -> Outcome {
     out.merge(random("C06", p, n, &g, &nt, "c06-rand"));
     let big = GenCfg { maxlen: 160, init_max: 130, vmax: 500, max_ops: 60, max_subs: 10, ..g };
     out.merge(random("C06", p, p.n(4_000, 60_000), &big, &nt, "c06-rand-large"));
+    // big channels with long backlogs: hundreds of undelivered messages around capacities 32..256
+    let backlog = GenCfg { caps: &[31, 32, 33, 63, 64, 65, 100, 128, 256], min_ops: 120, max_ops: 700, poll_pct: 2, max_subs: 3, ..g };
+    out.merge(random("C06", p, p.n(1_500, 30_000), &backlog, &nt, "c06-rand-backlog"));
     if out.violations.is_empty() && out.ev.get("resets_delivered") == 0 {
         out.inconclusive.push("no Reset was delivered in the whole run".into());
     }
@@ -470,6 +476,9 @@ pub fn run_c07(p: &Params) -> Outcome {
         init_max: 5,
     };
     out.merge(random("C07", p, n, &g, &nt, "c07-rand"));
+    // large vectors (traversals inside a transaction record one diff per element) and large channels
+    let big = GenCfg { maxlen: 160, init_max: 130, vmax: 500, max_ops: 40, caps: &[1, 16, 64, 256], oob: false, ..g };
+    out.merge(random("C07", p, p.n(3_000, 40_000), &big, &nt, "c07-rand-large"));
     out
 }
 
@@ -489,7 +498,7 @@ pub fn run_c08(p: &Params) -> Outcome {
     let mut roots = vec![];
     for &cap in &caps {
         for batched in [false, true] {
-            for situation in 0..6usize {
+            for situation in 0..8usize {
                 roots.push((cap, batched, situation));
             }
         }
@@ -531,6 +540,19 @@ pub fn run_c08(p: &Params) -> Outcome {
                     ops.push(HOp::V(VOp::Txn(vec![VOp::PushBack(6), VOp::PushFront(7), VOp::PopBack], TxEnd::Commit)));
                     ops.push(HOp::Poll { sub: 0, max: 1 });
                 }
+                // lagged, and the vector is empty when it goes away (direct clear / clear in a transaction)
+                6 | 7 => {
+                    ops.push(HOp::Poll { sub: 0, max: 0 });
+                    ops.extend(seq.iter().cloned().map(HOp::V));
+                    for k in 0..cap + 2 {
+                        ops.push(HOp::V(VOp::PushBack(10 + k as u32)));
+                    }
+                    if situation == 6 {
+                        ops.push(HOp::V(VOp::Clear));
+                    } else {
+                        ops.push(HOp::V(VOp::Txn(vec![VOp::PushBack(9), VOp::Clear], TxEnd::Commit)));
+                    }
+                }
                 // lagged, last message is a transaction, polled once after the drop only
                 _ => {
                     ops.extend(seq.iter().cloned().map(HOp::V));
@@ -548,7 +570,7 @@ pub fn run_c08(p: &Params) -> Outcome {
     };
     let mut out = p.cases(gen_name, roots.len() as u64, run_root);
     out.ev.exhaustive_scopes.push(format!(
-        "{gen_name}: 6 subscriber situations (pending, never polled, behind within capacity, lagged, mid-batch, lagged onto a transaction) x capacities {caps:?} x both stream flavours x every operation sequence of length <= {depth} over 6-7 operations, then drop of the vector and drain"
+        "{gen_name}: 8 subscriber situations (pending, never polled, behind within capacity, lagged, mid-batch, lagged onto a transaction, lagged with an empty final state x2) x capacities {caps:?} x both stream flavours x every operation sequence of length <= {depth} over 6-7 operations, then drop of the vector and drain"
     ));
     let n = p.n(60_000, 600_000);
     let g = GenCfg {
